@@ -196,14 +196,16 @@ def check_quote(ctx, line, exp_full):
     isinf = v in ("f7ff0000000000000", "ffff0000000000000")
     if kind == "tn" and (isnan or isinf):
         return  # the property speaks of finite numbers
-    if isnan:
-        ok = back == "fnan"
+    # compared by subtype and BIT PATTERN (any NaN = fnan), not with `==`: -0.0 and 0.0, 1 and 1.0 are `==`
+    if kind in ("qi", "qf") or same == "t":
+        ok = back == canon_tok(v)
     else:
+        # tostring of an integral float has no ".0" in golua, so tonumber gives the integer: what the property asks is ==
         ok = eq == "t"
+        ctx.count("tn:integral-float-read-as-integer")
     if not ok:
-        ctx.violation("%s %s" % (kind, v), "reading back %s gives %s (== original: %s)" % (show(text), back, eq), replay)
-    elif same != "t" and kind in ("qi", "qf"):
-        ctx.violation("%s-subtype %s" % (kind, v), "the %%q text %s reads back as %s: the integer/float subtype is lost" % (show(text), back), replay)
+        ctx.violation("%s %s" % (kind, v), "reading back %s gives %s, not the original %s (== says %s, same subtype: %s)" % (
+            show(text), back, canon_tok(v), eq, same), replay)
     if exp != "?":
         e = exp.split(" ")
         if text != e[1]:
